@@ -363,4 +363,105 @@ theorem MPEGTS_roundtrip (t : TS) (ps : List Pkt) (hwf : ∀ p ∈ ps, Pkt_WF p 
     simp only [List.flatMap_cons, List.length_append, List.length_cons, this, Pkt_bytes_length]
     unfold Fits188 at hf; omega
 
+/-- **MPEGTS round trip for a stream of N packets, arbitrary N**: `MPEGTS.pack` of N well-formed packets
+    emits N·188 bytes (the packets in order); `MPEGTS.unpack` of those bytes — into an object in any
+    prior state — gives exactly N blocks, the k-th being the decoded k-th packet; re-encoding the
+    decoded stream never fails, and reproduces the bytes when the format can express every packet
+    (no payload with adaptation control 0 or 2) -/
+theorem MPEGTS_roundtrip_n (t : TS) (ps : List Pkt) (hwf : ∀ p ∈ ps, Pkt_WF p ∧ p.sync = 0x47 ∧ Fits188 p ∧
+      (p.adaption_ctrl = 2 → p.adaption_field.isSome = true)) :
+    ∃ b, (TS.pack { blocks := ps }).2 = .ok b ∧ b.length = 188 * ps.length ∧
+      TS.unpack t b = ({ blocks := ps.map Pkt_decoded }, .ok true) ∧
+      (ps.map Pkt_decoded).length = ps.length ∧
+      (∃ b', (TS.pack { blocks := ps.map Pkt_decoded }).2 = .ok b' ∧ b'.length = 188 * ps.length) ∧
+      ((∀ p ∈ ps, (p.adaption_ctrl = 0 ∨ p.adaption_ctrl = 2) → p.payload = []) →
+        (TS.pack { blocks := ps.map Pkt_decoded }).2 = .ok b) := by
+  obtain ⟨hu, hl⟩ := MPEGTS_roundtrip t ps hwf
+  have hw : ∀ p ∈ ps, Pkt_WF p := fun p hp => (hwf p hp).1
+  have hwd : ∀ q ∈ ps.map Pkt_decoded, Pkt_WF q := by
+    intro q hq
+    obtain ⟨p, hp, rfl⟩ := List.mem_map.mp hq
+    exact (Pkt_decoded_bytes p (hwf p hp).1 (hwf p hp).2.2.1).1
+  have hlen : ∀ qs : List Pkt, (∀ q ∈ qs, Pkt_used q ≤ 188) → (qs.flatMap Pkt_bytes).length = 188 * qs.length := by
+    intro qs hq
+    induction qs with
+    | nil => rfl
+    | cons q qs ih =>
+      have := hq q (by simp)
+      simp only [List.flatMap_cons, List.length_append, List.length_cons, ih (fun x hx => hq x (by simp [hx])),
+        Pkt_bytes_length]
+      omega
+  have hused : ∀ q ∈ ps.map Pkt_decoded, Pkt_used q ≤ 188 := by
+    intro q hq
+    obtain ⟨p, hp, rfl⟩ := List.mem_map.mp hq
+    obtain ⟨hwp, _, hf, _⟩ := hwf p hp
+    have haf := Pkt_af_decoded p hwp
+    unfold Fits188 at hf
+    unfold Pkt_used at hf ⊢
+    rw [haf]
+    by_cases hc : p.adaption_ctrl = 1 ∨ p.adaption_ctrl = 3
+    · have : (Pkt_decoded p).payload = p.payload ++ Pkt_stuffing p := by simp [Pkt_decoded, hc]
+      rw [this]; simp [Pkt_stuffing, Pkt_used]; omega
+    · have : (Pkt_decoded p).payload = [] := by simp [Pkt_decoded, hc]
+      rw [this]; simp; omega
+  have hl' : ((ps.map Pkt_decoded).flatMap Pkt_bytes).length = 188 * ps.length := by
+    rw [hlen _ hused, List.length_map]
+  have hp1 : (TS.pack { blocks := ps }).2 = .ok (ps.flatMap Pkt_bytes) := by
+    simp only [TS.pack, packBlocks_eq ps hw]
+  have hp2 : (TS.pack { blocks := ps.map Pkt_decoded }).2 = .ok ((ps.map Pkt_decoded).flatMap Pkt_bytes) := by
+    simp only [TS.pack, packBlocks_eq _ hwd]
+  refine ⟨ps.flatMap Pkt_bytes, hp1, hl, hu, List.length_map _, ⟨_, hp2, hl'⟩, ?_⟩
+  intro hpl
+  rw [hp2, flatMap_decoded_bytes ps (fun p hp => ⟨(hwf p hp).1, (hwf p hp).2.2.1, hpl p hp⟩)]
+
+/-- **TS.reencode_ok** (the splice-countdown fix, D07): whatever optional parts a well-formed packet
+    carries — in particular a splice countdown, which the decoder stores as the integer read from the
+    byte — `MPEGPacket.pack` of the DECODED packet does not raise, emits 188 bytes, and the decoded
+    countdown is the encoded integer.  (For buffers that are not the encoding of a well-formed packet
+    the decoded adaptation field can hold a truncated PCR or extension part, for which `pack` raises
+    its own bare `Exception`; that is input validation, not the D07 `TypeError`.) -/
+theorem TS_reencode_ok (p t q : Pkt) (b : Bytes) (h : Pkt_WF p) (hs : p.sync = 0x47) (hf : Fits188 p)
+    (h2af : p.adaption_ctrl = 2 → p.adaption_field.isSome = true)
+    (hb : (Pkt.pack p).2 = .ok b) (hq : Pkt.unpack t b = (q, .ok ())) :
+    (∃ b', (Pkt.pack q).2 = .ok b' ∧ b'.length = 188) ∧
+    (∀ a, hasAF p → p.adaption_field = some a →
+      ∃ a', q.adaption_field = some a' ∧ a'.splice_countdown = a.splice_countdown) := by
+  rw [Pkt_pack_eq' p false h] at hb
+  simp only [Bool.false_eq_true, if_false, Except.ok.injEq] at hb
+  subst hb
+  rw [Pkt_unpack_bytes p t h hs h2af] at hq
+  simp only [Prod.mk.injEq, and_true] at hq
+  subst hq
+  obtain ⟨hw, _⟩ := Pkt_decoded_bytes p h hf
+  refine ⟨⟨Pkt_bytes (Pkt_decoded p), by rw [Pkt_pack_eq' _ false hw]; rfl, ?_⟩, ?_⟩
+  · rw [Pkt_bytes_length]
+    have haf := Pkt_af_decoded p h
+    unfold Fits188 at hf
+    unfold Pkt_used at hf ⊢
+    rw [haf]
+    by_cases hc : p.adaption_ctrl = 1 ∨ p.adaption_ctrl = 3
+    · have : (Pkt_decoded p).payload = p.payload ++ Pkt_stuffing p := by simp [Pkt_decoded, hc]
+      rw [this]; simp [Pkt_stuffing, Pkt_used]; omega
+    · have : (Pkt_decoded p).payload = [] := by simp [Pkt_decoded, hc]
+      rw [this]; simp; omega
+  · intro a haf ha
+    exact ⟨AF_packed a, by simp [Pkt_decoded, haf, ha], rfl⟩
+
+/-- a packet with a splice countdown (and PCR, private data, stuffing) satisfying the hypotheses of
+    `TS_reencode_ok`, and two of them those of `MPEGTS_roundtrip_n` -/
+def examplePktSplice : Pkt :=
+  { Pkt.fresh with
+    pid := 0x104, adaption_ctrl := 3, continuitycounter := 3, payload := [1, 2, 3],
+    adaption_field := some { AF.fresh with pcr := [1, 2, 3, 4, 5, 6], splice_countdown := 7,
+                                           private_data := [0xAA], length := 100 } }
+
+example : Pkt_WF examplePktSplice ∧ Fits188 examplePktSplice ∧ examplePktSplice.sync = 0x47 ∧
+    (examplePktSplice.adaption_ctrl = 2 → examplePktSplice.adaption_field.isSome = true) := by
+  refine ⟨⟨by decide, by decide, by decide, by decide, by decide, by decide, ?_⟩, by decide, by decide, by decide⟩
+  intro a ha
+  injection ha with ha
+  subst ha
+  refine ⟨by decide, by decide, by decide, by decide, ?_, by decide, by decide, by decide, by decide, by decide, by decide⟩
+  intro x hx; simp [AF.fresh] at hx
+
 end Acra.Props.C06
